@@ -213,12 +213,19 @@ class FormulaEval(object):
             st.env["$func"] = f
             out = []
             for kind, val, s, node in self._block(f.node.body, st):
-                if kind == "fall":
+                if kind in ("fall", "continue", "break"):
                     kind, val = "return", NONE
                 out.append(Path(s.conds, kind, val, node, s.heap))
             return out
         finally:
             self.depth -= 1
+
+    def run_block(self, func, stmts, env):
+        """analyse a statement list (a loop body) of `func` as if it were a function body: `env`
+        maps its free names to values; -> list of (kind, final env, conds, node)"""
+        st = _St(dict(env), (), {k: dict(v) for k, v in self.base_heap.items()})
+        st.env["$func"] = func
+        return [(kind, s.env, s.conds, node) for kind, _v, s, node in self._block(stmts, st)]
 
     # ------------------------------------------------------------------ statements
     def _block(self, stmts, st):
@@ -299,6 +306,8 @@ class FormulaEval(object):
             if s.value is None:
                 return [("return", NONE, st, s)]
             return [("return", v, s2, s) for v, s2 in self._expr(s.value, st)]
+        if isinstance(s, (ast.Continue, ast.Break)):
+            return [("continue" if isinstance(s, ast.Continue) else "break", None, st, s)]
         if isinstance(s, ast.Raise):
             name = ""
             if s.exc is not None:
